@@ -12,577 +12,10 @@
 //    address, success only after a 'received' report from the own address answering the last state query.
 #![allow(dead_code, unused_imports, unused_variables, unused_results, unsafe_code, static_mut_refs)]
 use super::*;
+use crate::core::{Frame, MsgType};
 use std::error::Error;
 
-/// zero-sized bus error (no allocation when boxed)
-#[derive(Debug)]
-struct BusFailure;
-impl std::fmt::Display for BusFailure {
-    fn fmt(&self, f: &mut std::fmt::Formatter<'_>) -> std::fmt::Result {
-        f.write_str("bus failure")
-    }
-}
-impl Error for BusFailure {}
-
-
-const STATES: [State; 13] = [
-    State::Unconfigured,
-    State::ConfigInProgress,
-    State::ConfigReceived,
-    State::ConfigFailed,
-    State::PixelsInProgress,
-    State::PixelsReceived,
-    State::PixelsFailed,
-    State::PageLoaded,
-    State::PageLoadInProgress,
-    State::PageShown,
-    State::PageShowInProgress,
-    State::ShowingPages,
-    State::ReadyToReset,
-];
-const S_UNCONF: usize = 0;
-const S_CFG_RECV: usize = 2;
-const S_CFG_FAIL: usize = 3;
-const S_PIX_RECV: usize = 5;
-const S_PIX_FAIL: usize = 6;
-const S_LOADED: usize = 7;
-const S_LOAD_PROG: usize = 8;
-const S_SHOWN: usize = 9;
-const S_SHOW_PROG: usize = 10;
-const S_SHOWING: usize = 11;
-const S_READY_RESET: usize = 12;
-const OPS: [Operation; 6] = [
-    Operation::ReceiveConfig,
-    Operation::ReceivePixels,
-    Operation::ShowLoadedPage,
-    Operation::LoadNextPage,
-    Operation::StartReset,
-    Operation::FinishReset,
-];
-const O_RECV_CFG: usize = 0;
-const O_RECV_PIX: usize = 1;
-const O_SHOW: usize = 2;
-const O_LOAD_NEXT: usize = 3;
-const O_START_RESET: usize = 4;
-const O_FINISH_RESET: usize = 5;
-const TYPES: [SignType; 11] = [
-    SignType::Max3000Front112x16,
-    SignType::Max3000Front98x16,
-    SignType::Max3000Side90x7,
-    SignType::Max3000Rear30x10,
-    SignType::Max3000Rear23x10,
-    SignType::Max3000Dash30x7,
-    SignType::HorizonFront160x16,
-    SignType::HorizonFront140x16,
-    SignType::HorizonSide96x8,
-    SignType::HorizonRear48x16,
-    SignType::HorizonDash40x12,
-];
-
-fn state_idx(s: State) -> usize {
-    match s {
-        State::Unconfigured => 0,
-        State::ConfigInProgress => 1,
-        State::ConfigReceived => 2,
-        State::ConfigFailed => 3,
-        State::PixelsInProgress => 4,
-        State::PixelsReceived => 5,
-        State::PixelsFailed => 6,
-        State::PageLoaded => 7,
-        State::PageLoadInProgress => 8,
-        State::PageShown => 9,
-        State::PageShowInProgress => 10,
-        State::ShowingPages => 11,
-        State::ReadyToReset => 12,
-        #[allow(unreachable_patterns)]
-        _ => 13,
-    }
-}
-fn op_idx(o: Operation) -> usize {
-    match o {
-        Operation::ReceiveConfig => 0,
-        Operation::ReceivePixels => 1,
-        Operation::ShowLoadedPage => 2,
-        Operation::LoadNextPage => 3,
-        Operation::StartReset => 4,
-        Operation::FinishReset => 5,
-        #[allow(unreachable_patterns)]
-        _ => 6,
-    }
-}
-
-// ---- abstract outgoing message
-#[derive(Copy, Clone, PartialEq, Eq)]
-enum Out {
-    Hello(u16),
-    Query(u16),
-    Req(u16, usize),
-    Data(u16, *const u8, usize),
-    Count(u16),
-    PixelsComplete(u16),
-    Goodbye(u16),
-    Other,
-}
-fn out_of(m: &Message<'_>) -> Out {
-    match m {
-        Message::Hello(a) => Out::Hello(a.0),
-        Message::QueryState(a) => Out::Query(a.0),
-        Message::RequestOperation(a, o) => Out::Req(a.0, op_idx(*o)),
-        Message::SendData(off, d) => Out::Data(off.0, d.get().as_ptr(), d.get().len()),
-        Message::DataChunksSent(c) => Out::Count(c.0),
-        Message::PixelsComplete(a) => Out::PixelsComplete(a.0),
-        Message::Goodbye(a) => Out::Goodbye(a.0),
-        _ => Out::Other,
-    }
-}
-
-// ---- nondeterministic reply
-#[derive(Copy, Clone, PartialEq, Eq)]
-enum Rep {
-    None,
-    Report(u16, usize),
-    Ack(u16, usize),
-    OtherMsg(u16), // an unrelated message (a Goodbye from some address)
-    UnknownFrame(u16, u8),
-    Err,
-}
-fn any_reply() -> Rep {
-    let k: u8 = kani::any();
-    let a: u16 = kani::any();
-    let si: usize = kani::any();
-    let oi: usize = kani::any();
-    kani::assume(si < 13 && oi < 6);
-    match k {
-        0 => Rep::None,
-        1 => Rep::Report(a, si),
-        2 => Rep::Ack(a, oi),
-        3 => Rep::OtherMsg(a),
-        4 => Rep::UnknownFrame(a, kani::any()),
-        _ => Rep::Err,
-    }
-}
-fn reply_value<'a>(r: Rep) -> Result<Option<Message<'a>>, Box<dyn Error + Send + Sync>> {
-    match r {
-        Rep::None => Ok(None),
-        Rep::Report(a, si) => Ok(Some(Message::ReportState(Address(a), STATES[si]))),
-        Rep::Ack(a, oi) => Ok(Some(Message::AckOperation(Address(a), OPS[oi]))),
-        Rep::OtherMsg(a) => Ok(Some(Message::Goodbye(Address(a)))),
-        Rep::UnknownFrame(a, t) => Ok(Some(Message::Unknown(crate::core::Frame::new(Address(a), crate::core::MsgType(t), Data::from(&[]))))),
-        Rep::Err => Err(Box::new(BusFailure)),
-    }
-}
-
-// ---- the documented protocol as a phase machine (monitor)
-#[derive(Copy, Clone, PartialEq, Eq)]
-enum Phase {
-    IfNeededHello,
-    Hello0,
-    StartReset,
-    HelloReadyReset,
-    FinishReset,
-    HelloUnconf,
-    ReqRecv,
-    Data,
-    Count,
-    QueryResult,
-    PixelsComplete,
-    QueryStyle,
-    Goodbye,
-    SwitchQuery,
-    SwitchReq,
-    Done,
-}
-#[derive(Copy, Clone, PartialEq, Eq)]
-enum Outcome {
-    Pending,
-    Ok,
-    OkAutomatic,
-    Unexpected,
-    BusError,
-}
-#[derive(Copy, Clone, PartialEq, Eq)]
-enum Kind {
-    Configure,
-    SendPages,
-    ShutDown,
-    Switch,
-    EnsureUnconfigured, // unit: Sign::ensure_unconfigured alone
-    SendDataConfig,     // unit: Sign::send_data with the configuration item
-    SendDataPages,      // unit: Sign::send_data with page items
-    SendPagesTail,      // unit: the part of send_pages after send_data (PixelsComplete, QueryState)
-    Transport,          // units: send_message / send_message_expect_response: no protocol, one exchange, any message
-}
-
-const MAX_ITEMS: usize = 3;
-const LOG: usize = 40;
-
-struct Bus {
-    own: u16,
-    kind: Kind,
-    // transfer description
-    recv_op: usize,
-    success: usize,
-    failure: usize,
-    n_items: usize,
-    items: [(*const u8, usize); MAX_ITEMS],
-    config: [u8; 16],
-    // switch_page description
-    sw_target: usize,
-    sw_trigger: usize,
-    sw_op: usize,
-    max_polls: usize,
-    polls: usize,
-    // attempts before this one are 'clean failed attempts': their replies are forced to the allowed ones
-    free_attempt: u32,
-    // monitor state
-    phase: Phase,
-    attempt: u32,
-    item: usize,
-    chunk: usize,
-    chunks_sent: u16,
-    outcome: Outcome,
-    // C11 log invariants (independent of the monitor)
-    dead: bool,
-    sent_after_dead: bool,
-    foreign_address_sent: bool,
-    recv_requests: u32,
-    last_exchange_was_own_failed_report: bool,
-    retry_without_failed_report: bool,
-    last_query_reply_own_success: bool,
-    n_msgs: usize,
-    last_out: Out,
-    last_rep: Rep,
-}
-
-impl Bus {
-    fn new(own: u16, kind: Kind, phase: Phase) -> Self {
-        Bus {
-            own,
-            kind,
-            recv_op: O_RECV_CFG,
-            success: S_CFG_RECV,
-            failure: S_CFG_FAIL,
-            n_items: 0,
-            items: [(core::ptr::null(), 0); MAX_ITEMS],
-            config: [0; 16],
-            sw_target: 0,
-            sw_trigger: 0,
-            sw_op: 0,
-            max_polls: 0,
-            polls: 0,
-            free_attempt: 1,
-            phase,
-            attempt: 1,
-            item: 0,
-            chunk: 0,
-            chunks_sent: 0,
-            outcome: Outcome::Pending,
-            dead: false,
-            sent_after_dead: false,
-            foreign_address_sent: false,
-            recv_requests: 0,
-            last_exchange_was_own_failed_report: false,
-            retry_without_failed_report: false,
-            last_query_reply_own_success: false,
-            n_msgs: 0,
-            last_out: Out::Other,
-            last_rep: Rep::None,
-        }
-    }
-
-    fn finish(&mut self, o: Outcome) {
-        self.outcome = o;
-        self.phase = Phase::Done;
-    }
-
-    /// the sign is known to be unconfigured: the transfer follows (or, for the ensure_unconfigured unit, the unit is done)
-    fn unconfigured_reached(&mut self) {
-        if self.kind == Kind::EnsureUnconfigured {
-            self.finish(Outcome::Ok)
-        } else {
-            self.phase = Phase::ReqRecv
-        }
-    }
-
-    /// the one reply that lets a clean failed attempt proceed in the current phase
-    fn forced_reply(&self) -> Rep {
-        match self.phase {
-            Phase::ReqRecv => Rep::Ack(self.own, self.recv_op),
-            Phase::QueryResult => Rep::Report(self.own, self.failure),
-            _ => Rep::None,
-        }
-    }
-
-    /// first data phase of an attempt, or straight to the count when there is nothing to send
-    fn start_data(&mut self) {
-        self.item = 0;
-        self.chunk = 0;
-        self.chunks_sent = 0;
-        self.skip_empty_items();
-    }
-    fn skip_empty_items(&mut self) {
-        while self.item < self.n_items && self.chunk * 16 >= self.items[self.item].1 {
-            self.item += 1;
-            self.chunk = 0;
-        }
-        self.phase = if self.item < self.n_items { Phase::Data } else { Phase::Count };
-    }
-
-    /// C10/C09: the message the protocol prescribes in the current phase
-    fn check_message(&self, m: &Message<'_>) {
-        let got = out_of(m);
-        let own = self.own;
-        match self.phase {
-            Phase::IfNeededHello | Phase::Hello0 | Phase::HelloReadyReset | Phase::HelloUnconf => assert!(got == Out::Hello(own)),
-            Phase::StartReset => assert!(got == Out::Req(own, O_START_RESET)),
-            Phase::FinishReset => assert!(got == Out::Req(own, O_FINISH_RESET)),
-            Phase::ReqRecv => assert!(got == Out::Req(own, self.recv_op)),
-            Phase::Data => {
-                let (base, len) = self.items[self.item];
-                let off = self.chunk * 16;
-                let n = if len - off < 16 { len - off } else { 16 };
-                match got {
-                    Out::Data(o, p, l) => {
-                        assert!(o as usize == off); // offsets 0, 16, 32, ... within the item
-                        assert!(l == n); // at most 16 bytes, all of the rest of the item
-                        if self.kind == Kind::Configure || self.kind == Kind::SendDataConfig {
-                            // the configuration sent is exactly the 16-byte block of the sign type
-                            if let Message::SendData(_, d) = m {
-                                let sent: [u8; 16] = match <[u8; 16]>::try_from(&d.get()[..]) {
-                                    Ok(a) => a,
-                                    Err(_) => panic!("configuration chunk is not 16 bytes"),
-                                };
-                                assert!(u128::from_le_bytes(sent) == u128::from_le_bytes(self.config));
-                            }
-                        } else {
-                            assert!(p == base.wrapping_add(off)); // the very bytes of the page, in order
-                        }
-                    }
-                    _ => panic!("protocol: a data chunk is due"),
-                }
-            }
-            Phase::Count => assert!(got == Out::Count(self.chunks_sent)),
-            Phase::QueryResult | Phase::QueryStyle | Phase::SwitchQuery => assert!(got == Out::Query(own)),
-            Phase::PixelsComplete => assert!(got == Out::PixelsComplete(own)),
-            Phase::Goodbye => assert!(got == Out::Goodbye(own)),
-            Phase::SwitchReq => assert!(got == Out::Req(own, self.sw_op)),
-            Phase::Done => panic!("protocol: nothing further may be sent"),
-        }
-    }
-
-    /// C10: next phase / outcome for the reply just produced
-    fn advance(&mut self, r: Rep) {
-        if r == Rep::Err {
-            self.finish(Outcome::BusError);
-            return;
-        }
-        let own = self.own;
-        match self.phase {
-            Phase::IfNeededHello => {
-                let ready = match r {
-                    Rep::Report(a, s) if a == own => s == S_CFG_RECV || s == S_SHOWING || s == S_LOADED || s == S_SHOW_PROG || s == S_SHOWN || s == S_LOAD_PROG,
-                    _ => false,
-                };
-                if ready {
-                    self.finish(Outcome::Ok);
-                } else {
-                    self.phase = Phase::Hello0;
-                }
-            }
-            Phase::Hello0 => {
-                match r {
-                    Rep::Report(a, s) if a == own && s == S_UNCONF => self.unconfigured_reached(),
-                    Rep::Report(a, s) if a == own && s == S_READY_RESET => self.phase = Phase::FinishReset,
-                    _ => self.phase = Phase::StartReset,
-                }
-            }
-            Phase::StartReset => {
-                if r == Rep::Ack(own, O_START_RESET) {
-                    self.phase = Phase::HelloReadyReset
-                } else {
-                    self.finish(Outcome::Unexpected)
-                }
-            }
-            Phase::HelloReadyReset => {
-                if r == Rep::Report(own, S_READY_RESET) {
-                    self.phase = Phase::FinishReset
-                } else {
-                    self.finish(Outcome::Unexpected)
-                }
-            }
-            Phase::FinishReset => {
-                if r == Rep::Ack(own, O_FINISH_RESET) {
-                    self.phase = Phase::HelloUnconf
-                } else {
-                    self.finish(Outcome::Unexpected)
-                }
-            }
-            Phase::HelloUnconf => {
-                if r == Rep::Report(own, S_UNCONF) {
-                    self.unconfigured_reached()
-                } else {
-                    self.finish(Outcome::Unexpected)
-                }
-            }
-            Phase::ReqRecv => {
-                if r == Rep::Ack(own, self.recv_op) {
-                    self.start_data()
-                } else {
-                    self.finish(Outcome::Unexpected)
-                }
-            }
-            Phase::Data => {
-                if r == Rep::None {
-                    self.chunks_sent += 1;
-                    self.chunk += 1;
-                    self.skip_empty_items();
-                } else {
-                    self.finish(Outcome::Unexpected)
-                }
-            }
-            Phase::Count => {
-                if r == Rep::None {
-                    self.phase = Phase::QueryResult
-                } else {
-                    self.finish(Outcome::Unexpected)
-                }
-            }
-            Phase::QueryResult => {
-                if r == Rep::Report(own, self.failure) && self.attempt < 3 {
-                    self.attempt += 1;
-                    self.phase = Phase::ReqRecv;
-                } else if r == Rep::Report(own, self.success) {
-                    if self.kind == Kind::SendPages {
-                        self.phase = Phase::PixelsComplete
-                    } else {
-                        self.finish(Outcome::Ok)
-                    }
-                } else {
-                    self.finish(Outcome::Unexpected)
-                }
-            }
-            Phase::PixelsComplete => {
-                if r == Rep::None {
-                    self.phase = Phase::QueryStyle
-                } else {
-                    self.finish(Outcome::Unexpected)
-                }
-            }
-            Phase::QueryStyle => {
-                if r == Rep::Report(own, S_SHOWING) {
-                    self.finish(Outcome::OkAutomatic)
-                } else {
-                    self.finish(Outcome::Ok)
-                }
-            }
-            Phase::Goodbye => {
-                if r == Rep::None {
-                    self.finish(Outcome::Ok)
-                } else {
-                    self.finish(Outcome::Unexpected)
-                }
-            }
-            Phase::SwitchQuery => match r {
-                Rep::Report(a, s) if a == own && (s == S_SHOWING || s == self.sw_target) => self.finish(Outcome::Ok),
-                Rep::Report(a, s) if a == own && s == self.sw_trigger => self.phase = Phase::SwitchReq,
-                Rep::Report(a, s) if a == own && (s == S_LOAD_PROG || s == S_SHOW_PROG) => self.polls += 1,
-                _ => self.finish(Outcome::Unexpected),
-            },
-            Phase::SwitchReq => {
-                if r == Rep::Ack(own, self.sw_op) {
-                    self.phase = Phase::SwitchQuery
-                } else {
-                    self.finish(Outcome::Unexpected)
-                }
-            }
-            Phase::Done => {}
-        }
-    }
-
-    /// C11: log invariants, written without reference to the monitor's phase
-    fn log_invariants(&mut self, m: &Message<'_>, r: Rep) {
-        let own = self.own;
-        if self.dead {
-            self.sent_after_dead = true;
-        }
-        let got = out_of(m);
-        match got {
-            Out::Hello(a) | Out::Query(a) | Out::Req(a, _) | Out::PixelsComplete(a) | Out::Goodbye(a) => {
-                if a != own {
-                    self.foreign_address_sent = true;
-                }
-            }
-            _ => {}
-        }
-        if let Out::Req(_, o) = got {
-            if o == O_RECV_CFG || o == O_RECV_PIX {
-                self.recv_requests += 1;
-                if self.recv_requests > 1 && !self.last_exchange_was_own_failed_report {
-                    self.retry_without_failed_report = true;
-                }
-            }
-        }
-        // replies the protocol never allows, whatever the context
-        let disallowed = match got {
-            Out::Data(..) | Out::Count(_) | Out::PixelsComplete(_) | Out::Goodbye(_) => r != Rep::None,
-            Out::Req(_, o) => r != Rep::Ack(own, o),
-            _ => false,
-        };
-        if r == Rep::Err || disallowed {
-            self.dead = true;
-        }
-        self.last_exchange_was_own_failed_report = matches!(got, Out::Query(_)) && (r == Rep::Report(own, S_CFG_FAIL) || r == Rep::Report(own, S_PIX_FAIL));
-        if let Out::Query(_) = got {
-            self.last_query_reply_own_success = r == Rep::Report(own, self.success);
-        }
-    }
-}
-
-impl Bus {
-    /// one exchange: check the outgoing message against the protocol, pick a reply, advance monitor and log invariants
-    fn exchange(&mut self, message: &Message<'_>) -> Rep {
-        self.n_msgs += 1;
-        assert!(self.n_msgs <= LOG); // conversations are bounded by the protocol itself
-        self.last_out = out_of(message);
-        if self.kind == Kind::Transport {
-            let r = any_reply();
-            self.last_rep = r;
-            return r;
-        }
-        self.check_message(message);
-        // attempts before `free_attempt` are clean failed attempts with the one allowed reply each (see run_send_data)
-        let r = if self.attempt < self.free_attempt { self.forced_reply() } else { any_reply() };
-        if (self.kind == Kind::SendDataConfig || self.kind == Kind::SendDataPages)
-            && self.phase == Phase::QueryResult
-            && self.attempt == self.free_attempt
-            && self.free_attempt < 3
-        {
-            // scripts in which attempt A is itself a clean failed attempt belong to the harness for A + 1
-            kani::assume(r != Rep::Report(self.own, self.failure));
-        }
-        if self.kind == Kind::Switch && self.n_msgs >= self.max_polls {
-            // bounded stand-in for the unbounded loop of switch_page (it polls while the sign reports an in-progress
-            // state and re-requests while it reports the trigger state): after max_polls exchanges the sign must
-            // answer with something that ends the operation
-            kani::assume(!matches!(r, Rep::Report(a, s) if a == self.own && (s == S_LOAD_PROG || s == S_SHOW_PROG || s == self.sw_trigger)));
-            if self.phase == Phase::SwitchReq {
-                kani::assume(r != Rep::Ack(self.own, self.sw_op));
-            }
-        }
-        self.log_invariants(message, r);
-        self.advance(r);
-        self.last_rep = r;
-        r
-    }
-}
-
-impl SignBus for Bus {
-    fn process_message<'a>(&mut self, message: Message<'_>) -> Result<Option<Message<'a>>, Box<dyn Error + Send + Sync>> {
-        let r = self.exchange(&message);
-        core::mem::forget(message);
-        reply_value(r)
-    }
-}
+//@include sign_monitor.rs
 
 // ---- contract stubs for the two private transport functions of Sign -------------------------------------------
 // Sign::send_message(m)                       = hand m to the bus; return its reply, or SignError::Bus if the bus failed
